@@ -13,4 +13,9 @@ func init() {
 		Decides:    "16-bit string lengths are bounded by ≤ 65535 before narrowing and over-limit values are rejected by an error (C06-c).",
 		NotDecided: "decode(encode(x)) = x for all x; the packfile varint header arithmetic.",
 	}
+	props["C07"] = &propSpec{
+		Rules:      []string{"C07-a", "C07-b", "C07-c"},
+		Decides:    "the receiver's validation and ordering mechanisms: blocks validated before being stored (C07-a), no commit stored while a parent is missing (C07-b), rebuilt block indices compared with the table's recorded sums (C07-c), sender pushes blocks before table before commit (C07-d), blocks stored under the hash of the decoded content (C07-e).",
+		NotDecided: "byte identity of source and destination stores; packfile splitting arithmetic.",
+	}
 }
